@@ -432,6 +432,7 @@ M_C01 == [][MStep(C01_Step)]_vars
 M_C03 == [][MStep(C03_Step)]_vars
 M_C04 == [][MStep(C04_Step)]_vars
 M_C05 == [][MStep(C05_Step)]_vars
+M_C06 == [][MStep(C06_Step)]_vars
 M_C07 == [][MStep(C07_Step)]_vars
 M_C08 == [][MStep(C08_Step)]_vars
 M_C09 == [][MStep(C09_Step)]_vars
